@@ -7,8 +7,10 @@ import (
 	"encoding/hex"
 	"encoding/json"
 	"fmt"
+	"image"
 	"image/color"
 	"strconv"
+	"sync"
 
 	"github.com/boombuler/barcode"
 	"github.com/boombuler/barcode/aztec"
@@ -24,7 +26,7 @@ import (
 )
 
 type ColorSpec struct {
-	Model string    `json:"model"` // gray, gray16, rgba, nrgba, cmyk
+	Model string    `json:"model"` // gray, gray16, rgba, nrgba, cmyk, custom (caller-defined type), uniform (*image.Uniform)
 	V     [4]uint16 `json:"v"`
 }
 
@@ -40,9 +42,32 @@ func (c ColorSpec) Color() color.Color {
 		return color.NRGBA{R: uint8(c.V[0]), G: uint8(c.V[1]), B: uint8(c.V[2]), A: uint8(c.V[3])}
 	case "cmyk":
 		return color.CMYK{C: uint8(c.V[0]), M: uint8(c.V[1]), Y: uint8(c.V[2]), K: uint8(c.V[3])}
+	case "custom": // a caller-defined colour type (comparable value)
+		return CustomColor{c.V[0], c.V[1], c.V[2], c.V[3]}
+	case "uniform": // *image.Uniform, as image.Black / image.White are: a pointer; one instance per value
+		uniformMu.Lock()
+		defer uniformMu.Unlock()
+		if u, ok := uniforms[c.V]; ok {
+			return u
+		}
+		u := image.NewUniform(color.RGBA{R: uint8(c.V[0]), G: uint8(c.V[1]), B: uint8(c.V[2]), A: uint8(c.V[3])})
+		uniforms[c.V] = u
+		return u
 	}
 	return color.Gray16{Y: c.V[0]}
 }
+
+// CustomColor: a colour type of the caller's own (16-bit alpha-premultiplied components).
+type CustomColor struct{ R, G, B, A uint16 }
+
+func (c CustomColor) RGBA() (r, g, b, a uint32) {
+	return uint32(c.R), uint32(c.G), uint32(c.B), uint32(c.A)
+}
+
+var (
+	uniformMu sync.Mutex
+	uniforms  = map[[4]uint16]*image.Uniform{}
+)
 
 func ColorModelOf(name string) color.Model {
 	switch name {
